@@ -122,7 +122,7 @@ def run(ck, ctx):
         same = all(g.same(I.res(dcalls[0][2][p], r1.st), I.res(dcalls[1][2][p], r1.st)) for p in params if p != "z_det")
         ck.ob("R20.5", "both distances come from the same function with identical arguments except the altitude",
               same, dcalls[0][3], func, ", ".join(params))
-        zs = [I.res(c[2]["z_det"], r1.st) for c in dcalls]
+        zs = [I.res(getattr(c[2], "entry", c[2])["z_det"], r1.st) for c in dcalls]
         okz = len(ref) == 1 and any(z.op == "Cfg" and z.attr == ("detector", "initial_position", "altitude") for z in zs)
         ck.ob("R20.5", "one distance is for the 525 km reference, the other for the configured detector altitude", okz,
               dcalls[0][3], func, " / ".join(g.show(z, 1) for z in zs))
@@ -345,7 +345,7 @@ def _base_is(n, m):
 def _is_ref_alt(I, dcalls, D, st):
     for c in dcalls:
         if c[3] is D:
-            z = I.res(c[2]["z_det"], st)
+            z = I.res(getattr(c[2], "entry", c[2])["z_det"], st)
             return z.op == "Const" and z.attr == 525.0
     return False
 
